@@ -27,10 +27,16 @@ Rate == {[feat |-> "rate", clock |-> c, val |-> v, order |-> d, pos |-> p, inst 
 Chan == {[feat |-> "chan", kind |-> k, where |-> w, shape |-> s, inst |-> i] :
             k \in {"plain", "urgent", "broadcast", "urgentbroadcast"}, w \in {"global", "local"}, s \in {"scalar", "array"}, i \in InstModes}
 Other == {[feat |-> f] : f \in {"none", "dynamic", "chanprio", "procprio"}}
+(* how the floating-point value is written: the placements above use a literal; a value is floating point whatever spells it - a double variable, a constant
+   or meta one, an element of a constant array, an arithmetic expression over one *)
+FpSpellings == {"var", "cvar", "mvar", "carr", "expr"}
+Spelled == {[feat |-> "fpcmp", role |-> r, op |-> o, order |-> "cv", pos |-> p, inst |-> "yes", fp |-> s] : r \in {"guard", "invariant"}, o \in {"lt", "le"}, p \in {"alone", "right"}, s \in FpSpellings}
+           \cup {[feat |-> "fpassign", target |-> t, idx |-> 1, len |-> 1, inst |-> "yes", fp |-> s] : t \in {"clock", "double", "hybrid"}, s \in FpSpellings}
+           \cup {[feat |-> "clockinit", where |-> w, val |-> "fp", inst |-> "yes", fp |-> s] : w \in {"global", "local"}, s \in {"cvar", "carr"}}
 
 (* as invariants the type checker only admits  x < c, x <= c  and the mirrored spellings  c < x, c <= x  (i.e. gt/ge written value-first) *)
 Models == {m \in FpCmp : (m.role \in {"invariant_urgent", "invariant_committed"} => m.pos \in {"alone", "right"}) /\ (m.role = "guard" \/ (m.op \in {"lt", "le"} /\ m.order = "cv") \/ (m.op \in {"gt", "ge"} /\ m.order = "vc"))}
-          \cup {m \in FpAssign : m.idx <= m.len} \cup ClockInit \cup Rate \cup Chan \cup Other
+          \cup {m \in FpAssign : m.idx <= m.len} \cup ClockInit \cup Rate \cup Chan \cup Other \cup Spelled
 
 Inst(m) == IF "inst" \in DOMAIN m THEN m.inst # "no" ELSE TRUE
 InTemplate(m) == m.feat \in {"fpcmp", "fpassign", "rate"} \/ (m.feat \in {"clockinit", "chan"} /\ m.where = "local")
